@@ -188,8 +188,33 @@ func (b *c17Backend) Get(ctx context.Context, d digest.Digest) buffer.Buffer {
 	return buffer.NewValidatedBufferFromByteSlice(c17Contents[id])
 }
 
+// GetFromComposite (op 3) serves the child of parent p: c17Child(p).  It is
+// only reached by the mixed-entry-point cases (C17L); the slicer is not used.
 func (b *c17Backend) GetFromComposite(ctx context.Context, p, c digest.Digest, s slicing.BlobSlicer) buffer.Buffer {
-	return buffer.NewBufferFromError(status.Error(codes.Unimplemented, "n/a"))
+	id := c17ID(p)
+	if id < 0 {
+		return buffer.NewBufferFromError(status.Error(codes.InvalidArgument, "unknown parent"))
+	}
+	if f := b.gate(ctx, b.id, 3, []int{id}); f != 0 {
+		b.done(ctx, 3, []int{id}, c17Err(f), nil)
+		return buffer.NewBufferFromError(c17Err(f))
+	}
+	if !b.has(id) {
+		err := status.Error(codes.NotFound, "object not found")
+		b.done(ctx, 3, []int{id}, err, nil)
+		return buffer.NewBufferFromError(err)
+	}
+	b.done(ctx, 3, []int{id}, nil, nil)
+	return buffer.NewValidatedBufferFromByteSlice(c17Child(id))
+}
+
+// c17Child is the part of object id that a composite read asks for.
+func c17Child(id int) []byte { return c17Contents[id][4:] }
+
+func c17ChildDigest(id int) digest.Digest {
+	c := c17Child(id)
+	h := md5.Sum(c)
+	return digest.MustNewDigest("c17", remoteexecution.DigestFunction_MD5, hex.EncodeToString(h[:]), int64(len(c)))
 }
 
 func (b *c17Backend) Put(ctx context.Context, d digest.Digest, buf buffer.Buffer) error {
@@ -769,14 +794,9 @@ type c17CountRepl struct {
 	maxAll int
 }
 
-func (c *c17CountRepl) ReplicateSingle(ctx context.Context, d digest.Digest) buffer.Buffer {
-	return c.base.ReplicateSingle(ctx, d)
-}
-func (c *c17CountRepl) ReplicateComposite(ctx context.Context, p, ch digest.Digest, s slicing.BlobSlicer) buffer.Buffer {
-	return c.base.ReplicateComposite(ctx, p, ch, s)
-}
-func (c *c17CountRepl) ReplicateMultiple(ctx context.Context, ds digest.Set) error {
-	ids := c17SetIDs(ds)
+// Every entry point of the base replicator counts as a copy in flight for as
+// long as the call lasts.
+func (c *c17CountRepl) enter(ids []int) {
 	c.mu.Lock()
 	c.all++
 	if c.all > c.maxAll {
@@ -789,20 +809,43 @@ func (c *c17CountRepl) ReplicateMultiple(ctx context.Context, ds digest.Set) err
 		}
 	}
 	c.mu.Unlock()
-	err := c.base.ReplicateMultiple(ctx, ds)
+}
+
+func (c *c17CountRepl) leave(ids []int) {
 	c.mu.Lock()
 	c.all--
 	for _, i := range ids {
 		c.perKey[i]--
 	}
 	c.mu.Unlock()
-	return err
+}
+
+func (c *c17CountRepl) ReplicateSingle(ctx context.Context, d digest.Digest) buffer.Buffer {
+	ids := []int{c17ID(d)}
+	c.enter(ids)
+	defer c.leave(ids)
+	return c.base.ReplicateSingle(ctx, d)
+}
+
+func (c *c17CountRepl) ReplicateComposite(ctx context.Context, p, ch digest.Digest, s slicing.BlobSlicer) buffer.Buffer {
+	ids := []int{c17ID(p)}
+	c.enter(ids)
+	defer c.leave(ids)
+	return c.base.ReplicateComposite(ctx, p, ch, s)
+}
+
+func (c *c17CountRepl) ReplicateMultiple(ctx context.Context, ds digest.Set) error {
+	ids := c17SetIDs(ds)
+	c.enter(ids)
+	defer c.leave(ids)
+	return c.base.ReplicateMultiple(ctx, ds)
 }
 
 type c17Session struct {
 	mu       sync.Mutex
 	n        int
 	sets     [][]int
+	kinds    []int // per caller: 0 ReplicateMultiple, 1 ReplicateSingle, 2 ReplicateComposite (C17L)
 	repl     replication.BlobReplicator
 	count    *c17CountRepl
 	sink     *c17Backend
@@ -860,6 +903,20 @@ func newC17Session(in Sx) (*c17Session, bool) {
 		s.sets = append(s.sets, ids)
 	}
 	s.n = len(s.sets)
+	s.kinds = make([]int, s.n)
+	if in.Len() > 6 {
+		// entry points (C17L); a single-object entry point needs an object
+		ks := in.Nth(6)
+		if ks.IsAtom || ks.Len() > s.n {
+			return nil, false
+		}
+		for i, k := range ks.List {
+			if !c17Atom(k, 0, 2) || (k.Z != 0 && (len(s.sets[i]) == 0 || mode.Nth(0).Z == 2)) {
+				return nil, false
+			}
+			s.kinds[i] = k.Int()
+		}
+	}
 	source := newC17Backend(1, in.Nth(3).Ints(), s.gate)
 	source.ret = s.ret
 	s.sink = newC17Backend(0, in.Nth(4).Ints(), s.gate)
@@ -1027,7 +1084,7 @@ func (s *c17Session) start(i int) {
 		s.mu.Lock()
 		s.gids[i] = g
 		s.mu.Unlock()
-		err := s.repl.ReplicateMultiple(s.ctxs[i], c17Set(s.sets[i]))
+		err := s.call(i)
 		t := s.now()
 		s.mu.Lock()
 		s.codes[i] = c17Code(err)
@@ -1035,6 +1092,28 @@ func (s *c17Session) start(i int) {
 		s.finished[i] = true
 		s.mu.Unlock()
 	}()
+}
+
+// call runs caller i's request through the entry point of its kind and
+// consumes the buffer the single-object entry points return.
+func (s *c17Session) call(i int) error {
+	switch s.kinds[i] {
+	case 1:
+		id := s.sets[i][0]
+		data, err := s.repl.ReplicateSingle(s.ctxs[i], c17Digests[id]).ToByteSlice(1 << 20)
+		if err == nil && string(data) != string(c17Contents[id]) {
+			return status.Error(codes.DataLoss, "wrong bytes")
+		}
+		return err
+	case 2:
+		id := s.sets[i][0]
+		data, err := s.repl.ReplicateComposite(s.ctxs[i], c17Digests[id], c17ChildDigest(id), nil).ToByteSlice(1 << 20)
+		if err == nil && string(data) != string(c17Child(id)) {
+			return status.Error(codes.DataLoss, "wrong bytes")
+		}
+		return err
+	}
+	return s.repl.ReplicateMultiple(s.ctxs[i], c17Set(s.sets[i]))
 }
 
 func (s *c17Session) release(i, f int) {
@@ -1196,6 +1275,15 @@ func c17GenConc(r *Rand, tier string) Sx {
 		return header
 	}
 	defer s.close()
+	evs := c17GenEvents(r, s, n, mode.Nth(0).Z == 2, tier, 0)
+	return L(A(2), mode, L(sets...), LInts(src), LInts(snk), L(evs...))
+}
+
+// c17GenEvents draws a schedule for the live session s: the next event is
+// drawn among those that apply to the live state.  The last `late` callers are
+// held back until every other started caller has returned (C17L: late
+// arrivals that must find all permits free).
+func c17GenEvents(r *Rand, s *c17Session, n int, queued bool, tier string, late int) []Sx {
 	faultPct := r.Pick([]int{0, 10, 10, 25, 50})
 	cancelPct := r.Pick([]int{0, 0, 5, 15})
 	hold := -1
@@ -1208,13 +1296,22 @@ func c17GenConc(r *Rand, tier string) Sx {
 	if tier == "thorough" {
 		maxEv = 80
 	}
+	if late > 0 {
+		maxEv += 4 * late
+	}
 	for len(evs) < maxEv {
-		var unstarted, parked, live []int
+		var unstarted, lateUnstarted, parked, live []int
+		running := 0
 		s.mu.Lock()
 		for i := 0; i < n; i++ {
 			if !s.started[i] {
-				unstarted = append(unstarted, i)
+				if i >= n-late {
+					lateUnstarted = append(lateUnstarted, i)
+				} else {
+					unstarted = append(unstarted, i)
+				}
 			} else if !s.finished[i] {
+				running++
 				if !s.canc[i] {
 					live = append(live, i)
 				}
@@ -1224,13 +1321,25 @@ func c17GenConc(r *Rand, tier string) Sx {
 			}
 		}
 		s.mu.Unlock()
+		if len(unstarted) == 0 && running == 0 && len(lateUnstarted) > 0 {
+			// everybody else has returned: the late callers arrive, all at once
+			for _, i := range lateUnstarted {
+				ev := L(A(0), AI(i))
+				s.apply(ev)
+				evs = append(evs, ev)
+			}
+			if s.failed {
+				break
+			}
+			continue
+		}
 		var ev Sx
 		switch {
 		case len(unstarted) > 0 && (eager || len(parked) == 0 || r.Chance(30)):
 			ev = L(A(0), AI(unstarted[r.Intn(len(unstarted))]))
 		case len(live) > 0 && r.Chance(cancelPct):
 			ev = L(A(2), AI(live[r.Intn(len(live))]))
-		case mode.Nth(0).Z == 2 && r.Chance(15):
+		case queued && r.Chance(15):
 			ev = L(A(3), AI(r.Pick([]int{1, 1, 2, 5, 6})))
 		case len(parked) > 0:
 			f := 0
@@ -1256,7 +1365,7 @@ func c17GenConc(r *Rand, tier string) Sx {
 			break
 		}
 	}
-	return L(A(2), mode, L(sets...), LInts(src), LInts(snk), L(evs...))
+	return evs
 }
 
 func c17ClassConc(in, obs Sx) (string, bool) {
